@@ -79,6 +79,10 @@ func execC12(in []int64) []int64 {
 	fn := r.Int()
 	var res []int64
 	if try(func() {
+		if fn > 100 { // stream `nan`: the helpers at []float64 with NaN and both zeros (c12nan.go)
+			res = execC12NaN(fn, r)
+			return
+		}
 		switch fn {
 		case 1:
 			s, n := r.Ints(), r.Int()
@@ -232,6 +236,9 @@ func describeC12(in []int64) string {
 	if len(in) == 0 {
 		return ""
 	}
+	if in[0] > 100 {
+		return describeC12NaN(in)
+	}
 	r := &R{w: in}
 	fn := r.Int()
 	name := c12Names[fn]
@@ -282,7 +289,11 @@ func describeC12(in []int64) string {
 
 func genC12(g *Gen) {
 	emit := func(stream string, nt bool, w *W) {
-		g.Count(c12Names[int(w.w[0])])
+		if fn := int(w.w[0]); fn > 100 {
+			g.Count(c12Names[fn-100] + "[float64]")
+		} else {
+			g.Count(c12Names[fn])
+		}
 		g.Case(stream, nt, w.Out())
 	}
 	preds := [][2]int{{0, 0}, {1, 0}, {2, 0}, {3, 1}, {3, 2}, {4, 0}, {4, 1}, {4, 2}}
@@ -558,6 +569,9 @@ func genC12(g *Gen) {
 		}
 		emit("random", nt, w)
 	}
+
+	// --- nan / nan-large / nan-random: every helper at []float64 with NaN, +0, -0 (c12nan.go)
+	genC12NaN(g, emit)
 }
 
 // c12Large: many arguments, long slices, many distinct keys, deep and wide nestings (both tiers).
